@@ -310,11 +310,14 @@ func (vt *Model) cht(ps int) {
 		if n == ps {
 			break
 		}
-		if vt.cursor.col > ts {
+		if vt.cursor.col >= ts {
 			continue
 		}
 		vt.cursor.col = ts
 		n += 1
+	}
+	if vt.cursor.col > vt.margin.right {
+		vt.cursor.col = vt.margin.right
 	}
 }
 
